@@ -69,8 +69,11 @@ func c42lattice() []int64 {
 
 func runC42(r *core.R) {
 	if sm8.GenError != "" || sm16.GenError != "" {
-		r.HarnessError("width-scaled copy could not be generated: %s %s", sm8.GenError, sm16.GenError)
+		// the source uses something the width substitution cannot translate: part (a) is not decided, part (b)
+		// still runs on the real functions
+		r.Cut(fmt.Sprintf("width-scaled copy of safemath/int.go not derivable from the current source (%s %s): only the full-width lattice was explored", sm8.GenError, sm16.GenError))
 	}
+	scaledOK := sm8.GenError == "" && sm16.GenError == ""
 	type fn struct {
 		name string
 		f    func(a, b int64) (int64, error)
@@ -120,6 +123,9 @@ func runC42(r *core.R) {
 	})
 	r.Sample(map[string]any{"width": 64, "func": "MultiplyInt64", "a": lat[len(lat)-1], "b": lat[len(lat)-2]})
 	// (a) width-scaled, all pairs
+	if !scaledOK {
+		return
+	}
 	s8 := []fn{
 		{"AddInt", func(a, b int64) (int64, error) { v, e := sm8.AddInt(int8(a), int8(b)); return int64(v), e }, false},
 		{"MultiplyInt", func(a, b int64) (int64, error) { v, e := sm8.MultiplyInt(int8(a), int8(b)); return int64(v), e }, true},
